@@ -26,6 +26,8 @@ __TAPKEE_IMPLEMENTATION(Isomap)
         DenseSymmetricMatrix shortest_distances_matrix =
             compute_shortest_distances_matrix(begin, end, neighbors, distance);
         shortest_distances_matrix = shortest_distances_matrix.array().square();
+        // the neighborhood relation is not symmetric, so neither are the shortest distances
+        shortest_distances_matrix = ((shortest_distances_matrix + shortest_distances_matrix.transpose()) / 2).eval();
         centerMatrix(shortest_distances_matrix);
         shortest_distances_matrix.array() *= -0.5;
 
